@@ -54,7 +54,7 @@ def run(ctx):
     rng = ctx.rng
     procs = ctx.budget([1, 2, 3], [1, 2, 3, 4, 8])
     # direct oracle 1: stub stream, real functions against each other
-    for k in range(ctx.budget(10, 200)):
+    for k in range(ctx.budget(10, 40)):       # (each case runs one process pool per process count)
         net, order, stub = c14.stub_scenario(rng, with_raise=(k % 3 == 0))
         ref = c14.run_real(net, order, stub, False, "seq")
         for n in procs:
@@ -76,7 +76,7 @@ def run(ctx):
                              "line": net.line[["in_service", "max_loading_percent"]].to_dict("list"),
                              "trafo": net.trafo[["in_service", "max_loading_percent"]].to_dict("list") if len(net.trafo) else {}})
     # direct oracle 2: real power flows
-    for k in range(ctx.budget(2, 30)):
+    for k in range(ctx.budget(2, 8)):
         net = c14.mesh_net(rng)
         cases = c14.random_cases(rng, net)
         net_json = pp.to_json(net)
